@@ -1,6 +1,8 @@
 """C07: the consumer starts at the committed offset when valid, else at the fallback offset."""
+import random
 import kproto
 from val import T, dumps
+from props import common
 from props.common import boot_ops, brokers
 
 SLICE = "Consumer Builder::create -> State::new (load_consumed_offsets, load_fetch_states) and the first Consumer::poll"
@@ -207,6 +209,11 @@ def gen(rng, tier):
             hide = (victim,)            # leaderless only in the metadata seen at creation
         cases.append(make_case(parts, leaders, nb, fb, grp, source="client" if i % 4 else "hosts",
                                coord=rng.randint(1, nb) if grp != "none" else None, hide=hide, kind="leaderless"))
+    # the brokers may list topics and partitions in any order (every third case of the random families)
+    orng = random.Random(rng.randint(0, 10 ** 9))
+    for c in cases:
+        if c["meta"].get("kind") in ("pair", "multi", "leaderless") and not c["cluster"].get("order"):
+            common.maybe_order(orng, c["cluster"])
     return cases
 
 
